@@ -21,6 +21,7 @@ type Reg struct {
 	Pattern string   `json:"pattern"`
 	Methods []string `json:"methods"`
 	Remove  bool     `json:"remove"`
+	Clean   bool     `json:"clean,omitempty"` // Router.Clean() instead
 }
 
 type TReq struct {
@@ -42,7 +43,7 @@ var (
 	patterns = []string{"/a", "/b/{id}", "/c", "/a/b"}
 	witness  = map[string]string{"/a": "/a", "/b/{id}": "/b/7", "/c": "/c", "/a/b": "/a/b"}
 	msets    = [][]string{{"GET"}, {"TRACE"}, {"GET", "TRACE"}, {"POST", "TRACE", "PUT"}, {"POST"}, nil, {"DELETE"}}
-	bodies   = []string{"", "plain", `<script>alert("x")</script>`, "a&b'c", "\x00\xff<>", strings.Repeat("<", 300)}
+	bodies   = []string{"", "plain", `<script>alert("x")</script>`, "a&b'c", "\x00\xff<>", strings.Repeat("<", 300), "100% %s %d %v %!", "a%20b"}
 )
 
 func gen(t *rapid.T) Case {
@@ -50,13 +51,13 @@ func gen(t *rapid.T) Case {
 	for i, n := 0, rapid.IntRange(0, 8).Draw(t, "nregs"); i < n; i++ {
 		c.Uses = append(c.Uses, rapid.SliceOfN(rapid.IntRange(0, 4), 0, 2).Draw(t, "use"))
 		c.Regs = append(c.Regs, Reg{Pattern: rapid.SampledFrom(patterns).Draw(t, "p"), Methods: rapid.SampledFrom(msets).Draw(t, "ms"),
-			Remove: rapid.IntRange(0, 5).Draw(t, "rm") == 0})
+			Remove: rapid.IntRange(0, 5).Draw(t, "rm") == 0, Clean: rapid.IntRange(0, 11).Draw(t, "clean") == 0})
 	}
 	for i, n := 0, rapid.IntRange(1, 6).Draw(t, "nreqs"); i < n; i++ {
 		var q TReq
 		switch rapid.IntRange(0, 6).Draw(t, "pmode") {
 		case 0:
-			q.Path = rapid.SampledFrom([]string{"*", "", "/", "/nope", "/b/"}).Draw(t, "special")
+			q.Path = rapid.SampledFrom([]string{"*", "", "/", "/nope", "/b/", "/a%20b", "/%s/%d", "/b/50%"}).Draw(t, "special")
 		case 1:
 			q.Path = "/" + rapid.StringMatching(`[a-z<>&/]{0,8}`).Draw(t, "rand")
 		default:
@@ -65,7 +66,7 @@ func gen(t *rapid.T) Case {
 		q.Header = map[string][]string{}
 		for j, m := 0, rapid.IntRange(0, 3).Draw(t, "nh"); j < m; j++ {
 			k := rapid.SampledFrom([]string{"X-A", "Accept", "Cookie", "X-<b>", "Content-Type"}).Draw(t, "hk")
-			q.Header[k] = append(q.Header[k], rapid.SampledFrom([]string{"1", "<i>&\"'", "a=b; c=d", "text/html", ""}).Draw(t, "hv"))
+			q.Header[k] = append(q.Header[k], rapid.SampledFrom([]string{"1", "<i>&\"'", "a=b; c=d", "text/html", "", "q=100%", "%v%s"}).Draw(t, "hv"))
 		}
 		q.Body = rapid.SampledFrom(bodies).Draw(t, "body")
 		q.Host = rapid.SampledFrom([]string{"", "example.com", "<host>"}).Draw(t, "host")
@@ -89,6 +90,12 @@ func check(c Case, st *rig.Stats) error {
 		}
 		if len(ms) > 0 {
 			r.Use(ms...)
+		}
+		if rg.Clean {
+			r.Clean()
+			m.Clean()
+			classes = append(classes, "Clean")
+			continue
 		}
 		if rg.Remove {
 			r.Remove(rg.Pattern, rg.Methods...)
@@ -202,6 +209,17 @@ func check(c Case, st *rig.Stats) error {
 		}
 		if !rig.EqualSets(o.Allow(), m.AllowSet(o.Pattern)) {
 			return rig.Violf("allow", "OPTIONS %q on %q: Allow=%v want %v (trace option %v)", witness[p], o.Pattern, o.Allow(), m.AllowSet(o.Pattern), c.Trace)
+		}
+	}
+	if o := rig.Serve(r, rig.Req{Method: "OPTIONS", Path: "*"}); !o.Panicked {
+		has := false
+		for _, x := range o.Allow() {
+			if x == "TRACE" {
+				has = true
+			}
+		}
+		if c.Trace && !has {
+			return rig.Violf("allow", "a TRACE handler is configured but OPTIONS * answers Allow=%v after %+v", o.Allow(), c.Regs)
 		}
 	}
 	st.Eval(c, nontriv, classes...)
